@@ -167,12 +167,15 @@ var skipChunkShapes = []struct {
 	name   string
 	chunks []int
 	wd     bool
+	fail   error
 }{
-	{"fit", []int{-1}, false},
-	{"fit+eof", []int{-1}, true},
-	{"1byte", []int{1}, false},
-	{"1byte+eof", []int{1}, true},
-	{"3-0-7", []int{3, 0, 7}, true},
+	{"fit", []int{-1}, false, nil},
+	{"fit+eof", []int{-1}, true, nil},
+	{"1byte", []int{1}, false, nil},
+	{"1byte+eof", []int{1}, true, nil},
+	{"3-0-7", []int{3, 0, 7}, true, nil},
+	{"fit+err", []int{-1}, false, errInjected},
+	{"2byte+unexpectedeof", []int{2}, true, io.ErrUnexpectedEOF},
 }
 
 // runSkippers executes every skipping facility on (b, t). full=false runs only the allocation-free ones.
@@ -215,18 +218,18 @@ func runSkippers(b []byte, t int8, full bool, shapes int) []skipRes {
 			return &shieldReader{Reader: bufiox.NewBytesReader(b), limit: len(b) + allocCap}, "bytes", nil
 		}
 		s := skipChunkShapes[sh]
-		src := &dataSource{data: b, chunks: s.chunks, wd: s.wd}
+		src := &dataSource{data: b, chunks: s.chunks, wd: s.wd, fail: s.fail}
 		return &shieldReader{Reader: bufiox.NewDefaultReader(src), limit: len(b) + allocCap}, s.name, src
 	}
 	for sh := -1; sh < shapes && sh < len(skipChunkShapes); sh++ {
 		{
-			rd, name, _ := mk(sh)
+			rd, name, src := mk(sh)
 			r := skipRes{Impl: "bufferreader", Shape: name, Ret: true}
 			protect(&r, func() {
 				br := thrift.NewBufferReader(rd)
 				err := br.Skip(t)
 				r.Ok, r.N, r.Used, r.Tid = err == nil, int(br.Readn()), rd.ReadLen(), tidOf(err)
-				r.SrcErr = errors.Is(err, io.EOF)
+				r.SrcErr = errors.Is(err, srcEnd(src))
 				r.Giant = rd.giant
 				br.Recycle()
 			})
@@ -234,14 +237,14 @@ func runSkippers(b []byte, t int8, full bool, shapes int) []skipRes {
 			out = append(out, r)
 		}
 		{
-			rd, name, _ := mk(sh)
+			rd, name, src := mk(sh)
 			r := skipRes{Impl: "skipdec", Shape: name}
 			protect(&r, func() {
 				d := thrift.NewSkipDecoder(rd)
 				buf, err := d.Next(t)
 				r.Ok, r.N, r.Used, r.Tid = err == nil, len(buf), rd.ReadLen(), tidOf(err)
 				r.Ret = len(buf) <= len(b) && bytes.Equal(buf, b[:len(buf)])
-				r.SrcErr = errors.Is(err, io.EOF)
+				r.SrcErr = errors.Is(err, srcEnd(src))
 				r.Giant = rd.giant
 				d.Release()
 			})
@@ -256,14 +259,14 @@ func runSkippers(b []byte, t int8, full bool, shapes int) []skipRes {
 	}
 	for sh := 0; sh < shapes && sh < len(skipChunkShapes); sh++ {
 		s := skipChunkShapes[sh]
-		src := &dataSource{data: b, chunks: s.chunks, wd: s.wd}
+		src := &dataSource{data: b, chunks: s.chunks, wd: s.wd, fail: s.fail}
 		r := skipRes{Impl: "readerdec", Shape: s.name}
 		protect(&r, func() {
 			d := thrift.NewReaderSkipDecoder(src)
 			buf, err := d.Next(t)
 			r.Ok, r.N, r.Used, r.Tid = err == nil, len(buf), src.pos, tidOf(err)
 			r.Ret = len(buf) <= len(b) && bytes.Equal(buf, b[:len(buf)])
-			r.SrcErr = errors.Is(err, io.EOF)
+			r.SrcErr = errors.Is(err, src.endErr())
 			d.Release()
 		})
 		out = append(out, r)
@@ -287,7 +290,7 @@ func runSkipCase(raw json.RawMessage, w *TraceWriter) {
 	in := buildSkipInput(&cs)
 	t := int8(cs.T)
 	full := declaredMax(in.b, t) <= allocCap
-	shapes := 5
+	shapes := len(skipChunkShapes)
 	if len(in.b) > 300 {
 		shapes = 3 // 1-byte chunking of long inputs adds time, not behaviour
 	}
@@ -338,5 +341,12 @@ var (
 	famSkipC03 = skipFamily("C03")
 	famSkipC17 = skipFamily("C17")
 )
+
+func srcEnd(s *dataSource) error {
+	if s == nil {
+		return io.EOF // the bytes-backed reader ends with io.EOF
+	}
+	return s.endErr()
+}
 
 var _ = unsafe.Pointer(nil)
